@@ -110,3 +110,56 @@ package phttp
 //@ func (t *TraceTimings) GetLatency
 //@ props C19 C09
 //@ modifies nothing
+
+// ---------------------------------------------------------------- clients (client.go)
+
+// The HTTP/2 gun stops the run only for a target without HTTP/2: the "no application protocol" TLS alert, or a connection
+// that did not negotiate h2. Every other failure of the exchange is returned to the gun like any transport error.
+//@ func (c *panicOnHTTP1Client) Do
+//@ props C19 C09
+//@ may_panic true
+//@ requires c.Client != nil
+//@ at call zap.L().Panic#0 assert [fatal-only-for-the-no-http2-alert] result_of(errors.As, 0) && opError.Op == "remote error" && result_of(strings.Contains, 0)
+//@ at call strings.Contains assert [the-alert-text] arg(a1) == "no application protocol"
+//@ at call zap.L().Panic#1 assert [fatal-only-for-a-non-h2-connection] result_of(checkHTTP2, 0) != nil
+//@ ensures [every-other-failure-is-returned] imp(result_of(c.Client.Do, 1) != nil, result1 == result_of(c.Client.Do, 1) && result0 == nil)
+//@ ensures [the-response-as-received] imp(result1 == nil, result0 == result_of(c.Client.Do, 0) && result_of(checkHTTP2, 0) == nil)
+//@ at call c.Client.Do assert [the-request-as-given] arg(req) == req0
+
+//@ func checkHTTP2
+//@ props C19 C09
+//@ nilsafe
+//@ ensures [h2-negotiated-mutually-over-tls] iff(result == nil, state != nil && state.NegotiatedProtocol == "h2" && state.NegotiatedProtocolIsMutual)
+
+//@ func NewHTTP2Transport
+//@ props C09
+//@ may_panic true
+//@ at call NewTransport assert [same-options] arg(conf) == conf0 && arg(target) == target0
+//@ ensures [h2-only] result == result_of(NewTransport, 0) && len(result.TLSClientConfig.NextProtos) == 1 && result.TLSClientConfig.NextProtos[0] == "h2"
+
+//@ func NewDialer
+//@ props C09
+//@ at call netutil.NewDNSCachingDialer assert [cache-only-when-enabled] conf.DNSCache
+//@ ensures [no-cache-unless-enabled] imp(!conf.DNSCache, calls(netutil.NewDNSCachingDialer) == 0 && typeis(result, *net.Dialer) && result.(*net.Dialer).Timeout == conf.Timeout && result.(*net.Dialer).KeepAlive == conf.KeepAlive && result.(*net.Dialer).FallbackDelay == conf.FallbackDelay && result.(*net.Dialer).DualStack == conf.DualStack)
+
+//@ func NewRedirectingClient
+//@ props C09
+//@ ensures [redirects-followed-only-when-asked] iff(redirect, typeis(result, redirectClient)) && iff(!redirect, typeis(result, noRedirectClient))
+//@ ensures [over-the-given-transport] imp(!redirect, result.(noRedirectClient).Transport == tr) && imp(redirect, result.(redirectClient).Client.Transport == box(tr))
+
+//@ func (c noRedirectClient) Do
+//@ props C09 C19
+//@ at call c.Transport.RoundTrip assert [the-request-as-given] arg(req) == req0
+//@ ensures [one-round-trip-no-redirects] calls(c.Transport.RoundTrip) == 1 && result0 == result_of(c.Transport.RoundTrip, 0) && result1 == result_of(c.Transport.RoundTrip, 1)
+
+//@ func DefaultTransportConfig
+//@ props C09 C17
+//@ ensures [documented-defaults] result.MaxIdleConns == 0 && result.IdleConnTimeout == 90000000000 && result.TLSHandshakeTimeout == 1000000000 && result.ExpectContinueTimeout == 1000000000 && result.DisableCompression && !result.DisableKeepAlives && result.MaxIdleConnsPerHost == 0 && result.ResponseHeaderTimeout == 0
+
+//@ func DefaultDialerConfig
+//@ props C09 C17
+//@ ensures [documented-defaults] result.DNSCache && result.DualStack && result.Timeout == 3000000000 && result.KeepAlive == 120000000000
+
+//@ func DefaultClientConfig
+//@ props C09 C17
+//@ ensures [documented-defaults] !result.Redirect && !result.ConnectSSL && result.Transport == result_of(DefaultTransportConfig, 0) && result.Dialer == result_of(DefaultDialerConfig, 0)
